@@ -24,34 +24,43 @@ CONFIGS = {
     'quick': [
         # name, constants
         ('N1', dict(N=1, Kinds={"ea", "eb"}, RootCfg="R1", Axes=set(AXES),
-                    Tests={"node()", "*", "a", "text()"}, Preds={"1", "last()"}, ParenPreds={"1"})),
+                    Tests={"node()", "*", "a", "text()"}, Preds={"1", "last()"}, ParenPreds={"1"}, Preds2=set())),
         ('N2', dict(N=2, Kinds={"ea", "eb", "t", "c", "p", "xa"}, RootCfg="R1", Axes=set(AXES),
                     Tests={"node()", "*", "a", "b", "text()", "comment()", "processing-instruction()"},
-                    Preds={"1", "2", "last()", "b"}, ParenPreds={"1", "2", "last()"})),
+                    Preds={"1", "2", "last()", "b"}, ParenPreds={"1", "2", "last()"}, Preds2=set())),
         ('N3', dict(N=3, Kinds={"ea", "eb", "t", "c", "p", "xa"}, RootCfg="R1", Axes=set(AXES),
                     Tests={"node()", "*", "a", "b", "text()", "comment()", "processing-instruction()"},
-                    Preds={"1", "2", "last()", "b"}, ParenPreds={"1", "2", "last()"})),
+                    Preds={"1", "2", "last()", "b"}, ParenPreds={"1", "2", "last()"}, Preds2=set())),
         ('N3-R2', dict(N=3, Kinds={"ea", "eb", "t", "xa"}, RootCfg="R2", Axes=set(AXES),
-                       Tests={"node()", "*", "a", "text()"}, Preds={"1", "last()"}, ParenPreds={"last()"})),
+                       Tests={"node()", "*", "a", "text()"}, Preds={"1", "last()"}, ParenPreds={"last()"}, Preds2=set())),
         ('N3-R3', dict(N=3, Kinds={"ea", "eb", "t", "xa"}, RootCfg="R3", Axes=set(AXES),
-                       Tests={"node()", "*", "a", "text()"}, Preds={"1", "last()"}, ParenPreds={"last()"})),
+                       Tests={"node()", "*", "a", "text()"}, Preds={"1", "last()"}, ParenPreds={"last()"}, Preds2=set())),
         ('N4', dict(N=4, Kinds={"ea", "eb", "t"}, RootCfg="R1", Axes=set(AXES),
-                    Tests={"node()", "*", "a", "text()"}, Preds={"2"}, ParenPreds={"2"})),
+                    Tests={"node()", "*", "a", "text()"}, Preds={"2"}, ParenPreds={"2"}, Preds2=set())),
+        # steps with TWO predicates: the second numbers the survivors of the first along the axis
+        ('N3-P2', dict(N=3, Kinds={"ea", "eb", "t"}, RootCfg="R1",
+                       Axes={"child", "descendant", "ancestor", "ancestor-or-self", "preceding", "preceding-sibling",
+                             "following", "following-sibling"},
+                       Tests={"node()", "*"}, Preds=set(), ParenPreds=set(), Preds2={"position()<3", "b"})),
     ],
     'thorough': [
         ('N3-full', dict(N=3, Kinds={"ea", "eb", "t", "c", "p", "xa", "xc"}, RootCfg="R1", Axes=set(AXES),
                          Tests={"node()", "*", "a", "b", "c", "text()", "comment()", "processing-instruction()"},
                          Preds={"1", "2", "last()", "position()<2", "b", "@a", "not(b)", "text()"},
-                         ParenPreds={"1", "2", "last()", "b"})),
+                         ParenPreds={"1", "2", "last()", "b"}, Preds2=set())),
         ('N4-R1', dict(N=4, Kinds={"ea", "eb", "t", "c", "xa"}, RootCfg="R1", Axes=set(AXES),
                        Tests={"node()", "*", "a", "b", "text()", "comment()"},
-                       Preds={"1", "2", "last()", "b"}, ParenPreds={"1", "2", "last()"})),
+                       Preds={"1", "2", "last()", "b"}, ParenPreds={"1", "2", "last()"}, Preds2=set())),
         ('N4-R2', dict(N=4, Kinds={"ea", "eb", "t", "xa"}, RootCfg="R2", Axes=set(AXES),
-                       Tests={"node()", "*", "a", "text()"}, Preds={"1", "2", "last()"}, ParenPreds={"last()"})),
+                       Tests={"node()", "*", "a", "text()"}, Preds={"1", "2", "last()"}, ParenPreds={"last()"}, Preds2=set())),
         ('N4-R3', dict(N=4, Kinds={"ea", "eb", "t", "xa"}, RootCfg="R3", Axes=set(AXES),
-                       Tests={"node()", "*", "a", "text()"}, Preds={"1", "2", "last()"}, ParenPreds={"last()"})),
+                       Tests={"node()", "*", "a", "text()"}, Preds={"1", "2", "last()"}, ParenPreds={"last()"}, Preds2=set())),
+        ('N4-P2', dict(N=4, Kinds={"ea", "eb", "t"}, RootCfg="R1",
+                       Axes={"child", "descendant", "ancestor", "ancestor-or-self", "preceding", "preceding-sibling",
+                             "following", "following-sibling"},
+                       Tests={"node()", "*"}, Preds=set(), ParenPreds=set(), Preds2={"position()<3", "b"})),
         ('N5', dict(N=5, Kinds={"ea", "eb", "t"}, RootCfg="R1", Axes=set(AXES),
-                    Tests={"node()", "*", "a", "text()"}, Preds={"2", "last()"}, ParenPreds={"2"})),
+                    Tests={"node()", "*", "a", "text()"}, Preds={"2", "last()"}, ParenPreds={"2"}, Preds2=set())),
     ],
 }
 
@@ -73,6 +82,8 @@ def step_text(action: str, args: tuple) -> str:
         return f'{args[0]}::{args[1]}'
     if action in ('StepPred', 'DSlashPred'):
         return f'{args[0]}::{args[1]}[{args[2]}]'
+    if action == 'StepPred2':
+        return f'{args[0]}::{args[1]}[{args[2]}][{args[3]}]'
     raise ValueError(action)
 
 
@@ -112,7 +123,7 @@ def extend(prefix: str, action: str, args: tuple, root_cfg: str, last: str | Non
     for pre in alts:
         if action == 'Paren':
             out.append(f'({pre or "."})[{args[0]}]')
-        elif action in ('Step', 'StepPred'):
+        elif action in ('Step', 'StepPred', 'StepPred2'):
             if pre == '':
                 out += [s, './' + s]
             elif pre == '/':
@@ -253,7 +264,8 @@ def tree_worker(job):
                                     'extra' if set(map(str, obs)) > set(map(str, expected)) else 'wrong')
                                 feat = dict(action=action, axis=args[0] if action not in ('Paren', 'Root') else None,
                                             test=args[1] if action not in ('Paren', 'Root') else None,
-                                            pred=(args[2] if action.endswith('Pred') else args[0] if action == 'Paren' else None),
+                                            pred=(args[2] if action.endswith(('Pred', 'Pred2')) else args[0] if action == 'Paren' else None),
+                                            pred2=(args[3] if action == 'StepPred2' else None),
                                             ctx_kinds=kinds_of(kind, src), ctx_multi=len(src) > 1,
                                             ctx_has_attr=any(n and kind[n - 1] in ('xa', 'xc') for n in src),
                                             ctx_has_doc=0 in src,
@@ -286,7 +298,7 @@ def tree_worker(job):
 # (spec/TracePaths.tla evaluates the steps with the operators of Paths.tla)
 
 ALL_TESTS = ["node()", "*", "a", "b", "text()", "comment()", "processing-instruction()"]
-ALL_PREDS = ["1", "2", "last()", "position()<2", "b", "@a", "not(b)", "text()"]
+ALL_PREDS = ["1", "2", "last()", "position()<2", "position()<3", "b", "@a", "not(b)", "text()"]
 AFTER_ATTR = ["parent", "ancestor", "following", "preceding", "child", "descendant",
               "following-sibling", "preceding-sibling"]   # (attribute-context name tests are a known finding)
 
@@ -410,7 +422,7 @@ def run_traces(chk: core.Check) -> None:
             for r in recs:
                 f.write(json.dumps(dict(id=r['id'], p=r['p'], k=r['k'], steps=r['steps'], obs=r['obs'])) + '\n')
         consts = dict(N=n, Kinds={"ea", "eb", "t", "c", "p", "xa", "xc"}, RootCfg='R1', Axes=set(AXES),
-                      Tests=set(ALL_TESTS), Preds=set(ALL_PREDS), ParenPreds={"1", "2", "last()", "b"})
+                      Tests=set(ALL_TESTS), Preds=set(ALL_PREDS), ParenPreds={"1", "2", "last()", "b"}, Preds2=set())
         cfg = tla.cfg_text(consts, spec='TraceSpec', invariants=['Report'], postcondition='TraceAccepted')
         r = tla.require_ok(tla.run_tlc('TracePaths', cfg, wd, workers=1, env={'TRACE_FILE': tf}, timeout=3000),
                            f'TracePaths/N{n}', min_distinct=2 * len(recs))
